@@ -339,6 +339,145 @@ pub fn rename_event(pkt: &[u8], target: &[u8], source: &[u8], suffix: bool) -> O
     ))
 }
 
+fn suffixes(raw: &[u8]) -> Vec<Vec<u8>> {
+    let mut v = vec![];
+    let mut i = 0;
+    while i < raw.len() && raw[i] != 0 && raw[i] < 64 {
+        v.push(raw[i..].to_vec());
+        i += raw[i] as usize + 1;
+    }
+    v
+}
+
+/// Several renames of one packet with (target, source, mode) drawn from a menu built from the
+/// owner names the library itself reports (matches at every label depth, case variants,
+/// partial-label near misses, self renames, growth past 255).  The menu only steers the inputs
+/// towards interesting cases; the oracle is the specification.  Returns several lines.
+pub fn rename_menu(pkt: &[u8], seed: u64, n: usize) -> Option<String> {
+    let mut pp = match guarded(|| DNSSector::new(pkt.to_vec()).and_then(|d| d.parse())) {
+        Ok(Ok(pp)) => pp,
+        _ => return None,
+    };
+    let mut r = Rng::new(seed ^ (pkt.len() as u64) << 20);
+    let names = guarded(|| {
+        let mut names: Vec<Vec<u8>> = vec![];
+        {
+            let mut it = pp.into_iter_question();
+            while let Some(i) = it {
+                let mut n = vec![];
+                i.copy_raw_name(&mut n);
+                names.push(n);
+                it = i.next();
+            }
+        }
+        {
+            let mut it = pp.into_iter_answer();
+            while let Some(i) = it {
+                let mut n = vec![];
+                i.copy_raw_name(&mut n);
+                names.push(n);
+                if let Ok(RawRRData::Data(d)) = i.rr_rd() {
+                    // data of name-bearing types often is (or ends with) a literal name
+                    if d.len() > 2 && d.len() < 255 && matches!(i.rr_type(), 2 | 5 | 12) && !d.iter().any(|b| *b >= 0xc0) {
+                        names.push(d.to_vec());
+                    }
+                }
+                it = i.next();
+            }
+        }
+        {
+            let mut it = pp.into_iter_nameservers();
+            while let Some(i) = it {
+                let mut n = vec![];
+                i.copy_raw_name(&mut n);
+                names.push(n);
+                it = i.next();
+            }
+        }
+        {
+            let mut it = pp.into_iter_additional_including_opt();
+            while let Some(i) = it {
+                let mut n = vec![];
+                i.copy_raw_name(&mut n);
+                names.push(n);
+                it = i.next_including_opt();
+            }
+        }
+        names
+    })
+    .unwrap_or_default();
+    let mut cands: Vec<Vec<u8>> = names.iter().flat_map(|n| suffixes(n)).collect();
+    cands.push(vec![1, b'a', 0]);
+    cands.push(vec![2, b'a', b'b', 0]);
+    let mut lines = vec![];
+    for _ in 0..n {
+        let mut source = cands[r.below(cands.len())].clone();
+        match r.below(7) {
+            0 => {
+                for b in source.iter_mut() {
+                    if b.is_ascii_lowercase() {
+                        *b -= 32;
+                    } else if b.is_ascii_uppercase() {
+                        *b += 32;
+                    }
+                }
+            }
+            1 => {
+                // near miss: drop the first character of the first label
+                if source.len() > 3 && source[0] > 1 {
+                    let l = source[0] - 1;
+                    source.remove(1);
+                    source[0] = l;
+                }
+            }
+            2 => {
+                // near miss: prepend a character to the first label
+                if source[0] < 60 {
+                    source[0] += 1;
+                    source.insert(1, b'x');
+                }
+            }
+            _ => {}
+        }
+        let target: Vec<u8> = match r.below(6) {
+            0 => source.clone(),
+            1 => vec![1, b'z', 0],
+            2 => vec![3, b'x', b'Y', b'z', 2, b'f', b'r', 0],
+            3 => {
+                // maximal target: makes rewritten names overflow unless the prefix is empty
+                let mut t = vec![];
+                for _ in 0..3 {
+                    t.push(63);
+                    t.extend(vec![b'q'; 63]);
+                }
+                t.push(60);
+                t.extend(vec![b'q'; 60]);
+                t.push(0);
+                t
+            }
+            4 => {
+                let mut t = vec![];
+                for _ in 0..r.below(4) + 1 {
+                    t.push(50);
+                    t.extend(vec![b'w'; 50]);
+                }
+                t.push(0);
+                t
+            }
+            _ => cands[r.below(cands.len())].clone(),
+        };
+        let suffix_mode = r.below(2) == 0;
+        if let Some(l) = rename_event(pkt, &target, &source, suffix_mode) {
+            lines.push(l);
+        }
+    }
+    if lines.is_empty() {
+        None
+    } else {
+        Some(lines.join("\n"))
+    }
+}
+
 // ---------------------------------------------------------------------------------------------
 // dispatcher for scenario lines {"do": ..., ...}
 
@@ -388,7 +527,18 @@ pub fn run_line(v: &Value) -> Option<String> {
             };
             Some(uncompress_event(&pkt, &bounds))
         }
-        "compress" => Some(compress_event(&pkt)),
+        "compress" => {
+            if v["via_uncompress"].as_bool().unwrap_or(false) {
+                // compress the decompressed form of an accepted packet; the event logs the actual input
+                match guarded(|| Compress::uncompress(&pkt)) {
+                    Ok(Ok(u)) => Some(compress_event(&u)),
+                    _ => None,
+                }
+            } else {
+                Some(compress_event(&pkt))
+            }
+        }
+        "rename_menu" => rename_menu(&pkt, v["seed"].as_u64().unwrap_or(1), vusize(&v["n"]).max(1)),
         "rename" => rename_event(&pkt, &vbytes(&v["target"]), &vbytes(&v["source"]), v["suffix"].as_bool().unwrap_or(false)),
         other => Some(format!("{{\"k\":\"unknown\",\"do\":{}}}", jstr(other))),
     }
